@@ -39,6 +39,20 @@ def bounds(tier):
     return {"orders": "CP 1-5, Tucker 2-4, TT/TR 2-5, TT-matrix 1-3 core pairs, PARAFAC2 2-4 slices", "mode_sizes": "1-4", "ranks": "1-4"}
 
 
+def _norm_clause(ctx, fmt, be, desc, obj, dense_ref, absb, nterms, eps):
+    """the norm a wrapper object reports (whatever shortcut it takes) is the norm of the tensor it represents; on squares"""
+    if not hasattr(obj, "norm"):
+        return
+    cls = desc.get("cls", "generic")
+    nrm = obj.norm()
+    ctx.count("clause/norm")
+    nrm_sq = float(np.abs(nrm)) ** 2
+    want = ref.frob_sq(dense_ref)
+    scale = float(np.sum(np.asarray(absb, dtype=np.longdouble) ** 2))
+    if not np.isfinite(nrm_sq) or abs(nrm_sq - want) > 64 * (nterms + dense_ref.ndim + 8) * eps * scale:
+        ctx.violation("C03:%s:norm:%s" % (fmt, cls), "%s (%s backend): .norm()^2 = %r but ||dense||^2 = %r (scale %r)" % (fmt, be, nrm_sq, want, scale), {"desc": desc, "backend": be})
+
+
 def _views(ctx, fmt, be, desc, dense_ref, absb, nterms, eps, to_tensor, to_unfolded, to_vec, key_extra=""):
     """compare dense, every unfolding and vec with the reference"""
     cls = desc.get("cls", "generic")
@@ -174,9 +188,17 @@ def _build(fmt, rs, A, dt, rdt, kind):
         rk = gen.shape(rs, order)
         core = A(rk)
         factors = [A([s, r]) for s, r in zip(shp, rk)]
+        # factor structure a shortcut might key on: unit-norm but non-orthogonal columns (the state after .normalize()), or orthonormal
+        fcls = gen.choice(rs, ["generic", "generic", "unit-columns", "orthonormal"])
+        if fcls == "unit-columns":
+            factors = [(f / np.where(np.linalg.norm(f, axis=0) > 0, np.linalg.norm(f, axis=0), 1)).astype(f.dtype) for f in factors]
+        elif fcls == "orthonormal":
+            rk = [min(r, s) for r, s in zip(rk, shp)]
+            core = A(rk)
+            factors = [np.linalg.qr(ref.hp(A([s, r])).astype(np.complex128 if np.dtype(dt).kind == "c" else np.float64))[0].astype(dt) for s, r in zip(shp, rk)]
         wrapper = rs.rand() < 0.5
         skip = int(rs.randint(order)) if rs.rand() < 0.3 else None
-        desc = {"fmt": "tucker", "shape": shp, "rank": rk, "wrapper": bool(wrapper), "skip_factor": skip, "cls": "generic"}
+        desc = {"fmt": "tucker", "shape": shp, "rank": rk, "wrapper": bool(wrapper), "skip_factor": skip, "cls": fcls}
         dense, absb, nt = ref.tucker_dense(core, factors)
 
         def check(ctx, be, desc, eps, L):
@@ -184,11 +206,12 @@ def _build(fmt, rs, A, dt, rdt, kind):
             if wrapper:
                 ctx.count("clause/wrapper")
                 if tuple(obj.shape) != tuple(shp) or tuple(obj.rank) != tuple(rk):
-                    ctx.violation("C03:tucker:wrapper-shape-rank:generic", "TuckerTensor reports shape %s rank %s, actual %s %s" % (obj.shape, obj.rank, shp, rk), desc)
+                    ctx.violation("C03:tucker:wrapper-shape-rank:%s" % fcls, "TuckerTensor reports shape %s rank %s, actual %s %s" % (obj.shape, obj.rank, shp, rk), desc)
                 fns = (obj.to_tensor, obj.to_unfolded, obj.to_vec)
             else:
                 fns = (lambda: L["tucker_to_tensor"](obj), lambda m: L["tucker_to_unfolded"](obj, m), lambda: L["tucker_to_vec"](obj))
             _views(ctx, "tucker", be, desc, dense, absb, nt, eps, *fns)
+            _norm_clause(ctx, "tucker", be, desc, obj, dense, absb, nt, eps)
             if skip is not None:
                 keep = [i for i in range(order) if i != skip]
                 sv, sa, snt = ref.tucker_dense(core, [factors[i] for i in keep], keep)
@@ -239,6 +262,7 @@ def _build(fmt, rs, A, dt, rdt, kind):
             else:
                 fns = (lambda: to_t(obj), lambda m: to_u(obj, m), lambda: to_v(obj))
             _views(ctx, fmt, be, desc, dense, absb, nt, eps, *fns)
+            _norm_clause(ctx, fmt, be, desc, obj, dense, absb, nt, eps)
         return {"desc": desc, "check": check, "nontrivial": max(ranks) > 1 or sum(s > 1 for s in shp) > 1}
 
     if fmt == "ttm":
